@@ -48,6 +48,10 @@ func theImage() *image {
 		}
 		im := &image{lo: uintptr(text.Addr), hi: uintptr(text.Addr + text.Size), funcs: map[string][2]uintptr{}}
 		for _, fn := range tab.Funcs {
+			// (an assembly function and its ABI wrapper carry the same name in the pclntab: keep the larger, the body)
+			if old, ok := im.funcs[fn.Name]; ok && old[1]-old[0] >= uintptr(fn.End-fn.Entry) {
+				continue
+			}
 			im.funcs[fn.Name] = [2]uintptr{uintptr(fn.Entry), uintptr(fn.End)}
 		}
 		im.snap = make([]byte, im.hi-im.lo)
@@ -101,6 +105,15 @@ func (im *image) diff() []rng {
 
 // outside reports differing ranges not covered by the allowed ranges.
 func (im *image) outside(allowed []rng) string {
+	if os.Getenv("VERIF_NOMMAP") == "1" {
+		// executable mappings are refused in this process: interface stubs are written into goom's built-in reserve, which IS
+		// a function of the text image (stub.Placeholder and the padding the linker put behind it)
+		for n, r := range im.funcs {
+			if strings.Contains(n, "internal/bytecode/stub.Placeholder") {
+				allowed = append(append([]rng{}, allowed...), rng{r[0], r[1]})
+			}
+		}
+	}
 	var bad []string
 	for _, d := range im.diff() {
 		for a := d.lo; a < d.hi; a++ {
